@@ -253,6 +253,8 @@ def explore(ctx):
                                 'whitening': wh, 'features': feat, 'tfeatures': 'absent', 'raw': False,
                                 'sample_rate': sr, 'nsw': 5, 'fill': ctx.seed + (i % 3),
                                 'nonpositive_spikes': [3, 7] if i % 2 else [0],
+                                # feature tables as wide as / narrower than the number of components (2)
+                                'n_loc': [None, 2, None, 1][(i // 3) % 4],
                                 'template_dtype': 'float64' if (i // 2) % 2 else 'float32',
                                 # a channel that is not the largest carries a constant offset
                                 'dc_offset': [[0, 1, 40.0], [2, 0, 40.0], [3, 4, -40.0]] if (i // 4) % 2 else None}
@@ -275,6 +277,17 @@ def explore(ctx):
                                'features': 'sparse', 'tfeatures': 'absent', 'raw': False,
                                'sample_rate': 30000.0, 'nsw': 5, 'fill': ctx.seed},
                       'factors': [1], 'unused': 'none', 'how': 'merge-flat-channels'})
+    # 300 templates with 16-bit ids, two of the highest merged, one in the middle split: products of a
+    # template id and a cluster count do not fit the id type
+    nt_m = 300
+    st_m = list(range(nt_m)) + [299, 298, 250, 250]
+    sc_m = [300 if x in (298, 299) else x for x in st_m]
+    sc_m[-1] = 301
+    cases.append({'spec': {'n_spikes': len(st_m), 'n_templates': nt_m, 'n_channels': 4, 'geometry': 'line',
+                           'spike_templates': st_m, 'spike_clusters': sc_m, 'id_dtype': 'uint16',
+                           'whitening': 'mixing', 'features': 'absent', 'tfeatures': 'absent', 'raw': False,
+                           'sample_rate': 30000.0, 'nsw': 5, 'fill': ctx.seed},
+                  'factors': [1], 'unused': 'none', 'how': 'many-templates-16-bit-ids'})
     # get_depths works in batches of 50 000 spikes: two datasets just beyond one and two batches
     for ns_big in ((50007, 100003) if ctx.thorough else (50007,)):
         spec = {'n_spikes': ns_big, 'n_templates': 4, 'n_channels': 5, 'geometry': 'grid',
